@@ -1,5 +1,5 @@
 /-
-  F17 — the ping code of layer_icmp.go, regenerated from the Go bodies (Gen/PingGen.lean, tools/goextract/pingh.go),
+  F19 — the ping code of layer_icmp.go, regenerated from the Go bodies (Gen/PingGen.lean, tools/goextract/pingh.go),
   tied to the transition system of Model/Ping.lean (obligation of C19 and C09).
 
   * `echoNotify_tie`: the regenerated `echoNotify` IS the `echo id` transition (lookup, msgRecv, close(wakeup), delete).
@@ -143,16 +143,81 @@ theorem deleted_on_every_exit (s : State) (p id : Nat) (e : Err) :
 
 def hello : Bytes := [72, 69, 76, 76, 79, 45, 78, 69, 84, 70, 73, 76, 84, 69, 82]   -- "HELLO-NETFILTER"
 
+/-- `icmp4SendPacket` (regenerated: pooled buffer, EncodeEther with our MAC as source, EncodeIP4 with TTL 50, the checksum stored
+    into the message, AppendPayload with protocol 1, SetPayload, WriteTo; an error of the three last steps is returned at once)
+    = `Model.sendICMP4` + the write, for every message of at least the 4 bytes `SetChecksum` indexes -/
+theorem icmp4SendPacket_tie (e : SEnv) (sent : List Bytes) (src dst : GAddr) (p : Bytes) (hp : 4 ≤ p.length) :
+    errAsValue sent (Session_icmp4SendPacket e sent src dst p) = icmp4SendPacket e sent src dst p := by
+  have hlt : ¬ p.length < 4 := by omega
+  unfold Session_icmp4SendPacket icmp4SendPacket sendICMP4
+  simp only [hlt, if_false, bind, Outcome.bind, pure_ok]
+  cases h1 : encodeEther e.pool (whole e.pool) 2048 e.hostMAC dst.mac with
+  | err x => rfl
+  | panic => rfl
+  | hang => rfl
+  | ok r1 =>
+    obtain ⟨m1, eth⟩ := r1
+    simp only [etherPayloadNN, bind, Outcome.bind, pure_ok]
+    cases h2 : etherPayloadSl m1 eth with
+    | err x => rfl
+    | panic => rfl
+    | hang => rfl
+    | ok o =>
+      cases o with
+      | none => rfl
+      | some pay =>
+        simp only
+        cases h3 : encodeIP4 m1 pay 50 src.ip dst.ip with
+        | err x => rfl
+        | panic => rfl
+        | hang => rfl
+        | ok r3 =>
+          obtain ⟨m3, ip⟩ := r3
+          simp only [icmpSetChecksum, hlt, if_false, ip4AppendPayloadE]
+          cases h4 : ip4AppendPayload m3 ip (putChecksum p 2 (checksum p)) 1 with
+          | err x => rfl
+          | panic => rfl
+          | hang => rfl
+          | ok r4 =>
+            obtain ⟨m4, ip'⟩ := r4
+            simp only [etherSetPayloadE, bind, Outcome.bind, pure_ok, Option.isSome_none, Bool.false_eq_true, if_false]
+            cases h5 : etherSetPayload m4 eth ip'.len with
+            | err x => rfl
+            | panic => rfl
+            | hang => rfl
+            | ok f =>
+              simp only [Option.isSome_none, Bool.false_eq_true, if_false]
+              unfold connWrite
+              cases e.conn <;> rfl
+
+/-- a short message makes `icmp4SendPacket` panic or fail before anything is written (never a frame) -/
+theorem icmp4SendPacket_short (e : SEnv) (sent : List Bytes) (src dst : GAddr) (p : Bytes) (hp : p.length < 4) :
+    ∀ r, Session_icmp4SendPacket e sent src dst p = .ok r → False := by
+  intro r
+  unfold Session_icmp4SendPacket
+  simp only [bind, Outcome.bind, icmpSetChecksum, hp, if_true]
+  cases encodeEther e.pool (whole e.pool) 2048 e.hostMAC dst.mac with
+  | ok r1 =>
+    simp only
+    cases etherPayloadNN r1.1 r1.2 with
+    | ok r2 =>
+      simp only
+      cases encodeIP4 r1.1 r2 50 src.ip dst.ip <;> simp
+    | _ => simp
+  | _ => simp
+
 /-- `ICMP4SendEchoRequest`: ErrInvalidIP unless both addresses are IPv4; else the echo request (type 8, code 0, the
     identifier, the sequence number, the 15 data bytes) goes through `icmp4SendPacket` -/
 theorem echo4_tie (e : SEnv) (sent : List Bytes) (src dst : GAddr) (id seq : Nat) :
-    Session_ICMP4SendEchoRequest e sent src dst id seq =
+    errAsValue sent (Session_ICMP4SendEchoRequest e sent src dst id seq) =
       if (!(ipIs4 src.ip) || !(ipIs4 dst.ip)) then .ok (sent, some .invalidIP)
       else icmp4SendPacket e sent src dst (encodeICMPEcho 8 0 id seq hello) := by
   unfold Session_ICMP4SendEchoRequest
   split
   · rfl
-  · simp [encodeICMPEchoInto, makeBytes, hello, bind, Outcome.bind, encodeICMPEcho]
+  · have hl : 4 ≤ (encodeICMPEcho 8 0 id seq hello).length := by simp [encodeICMPEcho]
+    rw [← icmp4SendPacket_tie e sent src dst _ hl]
+    simp [encodeICMPEchoInto, makeBytes, hello, bind, Outcome.bind, encodeICMPEcho]
 
 /-- `ICMP6SendEchoRequest`: the same with IPv6 addresses, type 128 and `icmp6SendPacket` -/
 theorem echo6_tie (e : SEnv) (sent : List Bytes) (src dst : GAddr) (id seq : Nat) :
@@ -168,14 +233,14 @@ theorem echo6_tie (e : SEnv) (sent : List Bytes) (src dst : GAddr) (id seq : Nat
 theorem echo4_invalid_sends_nothing (e : SEnv) (sent : List Bytes) (src dst : GAddr) (id seq : Nat)
     (h : ipIs4 src.ip = false ∨ ipIs4 dst.ip = false) :
     Session_ICMP4SendEchoRequest e sent src dst id seq = .ok (sent, some .invalidIP) := by
-  rw [echo4_tie]; rcases h with h | h <;> simp [h]
+  unfold Session_ICMP4SendEchoRequest; rcases h with h | h <;> simp [h]
 
 /-! ### the reviewed lists -/
 
 theorem icmpTable_first_id : icmpTable_id0 = 1 ∧ icmpTable_id0 < idMod := by decide
 
 theorem ping_translated_reviewed : pingTranslated =
-    ["echoNotify", "Session_ping", "Session_Ping6", "Session_Ping", "Session_ICMP4SendEchoRequest",
+    ["echoNotify", "Session_ping", "Session_Ping6", "Session_Ping", "Session_icmp4SendPacket", "Session_ICMP4SendEchoRequest",
      "Session_ICMP6SendEchoRequest"] := by decide
 
 theorem ping_untranslated_reviewed : pingUntranslated = [] := by decide
@@ -187,14 +252,18 @@ theorem ping_ignored_reviewed : pingIgnored = [
   "echoNotify: lock: icmpTable.Unlock()",
   "Session_ping: the call's own entry (thread record p: msgRecv = false, wakeup open, expire never read): msg := icmpEntry{expire: time.Now().Add(timeout), wakeup: make(chan bool)}",
   "Session_Ping6: the call's own entry (thread record p: msgRecv = false, wakeup open, expire never read): msg := icmpEntry{expire: time.Now().Add(timeout), wakeup: make(chan bool)}",
+  "Session_icmp4SendPacket: buffer pool: defer EtherBufferPool.Put(buf)",
   "Session_ICMP4SendEchoRequest: log: if Logger.IsDebug() { Logger.Msg(\"send echo4 request\").IP(\"srcIP\", srcAddr.IP).IP(\"dstIP\",…",
   "Session_ICMP6SendEchoRequest: log: if Logger.IsDebug() { Logger.Msg(\"send echo6 request\").IP(\"srcIP\", srcAddr.IP).IP(\"dstIP\",…"] := rfl
 
 theorem ping_callees_accounted : pingCallees =
-    ["EncodeICMPEcho", "Session.icmp4SendPacket", "Session.icmp6SendPacket", "netip.Addr.Is4", "netip.Addr.Is6"] := by decide
+    ["Checksum", "Conn.WriteTo", "EncodeEther", "EncodeICMPEcho", "EncodeIP4", "Ether.Payload", "Ether.SetPayload",
+     "EtherBufferPool.Get (the pooled array, any contents)", "ICMP.SetChecksum", "IP4.AppendPayload", "Session.icmp6SendPacket",
+     "netip.Addr.Is4", "netip.Addr.Is6"] := by decide
 
 theorem ping_assumptions_accounted : pingAssumptions = [
   "a *icmpEntry is the number of the call whose local msg it points to (the only &icmpEntry stored in the table is &msg of the storing call)",
+  "an encoder handed a nil slice (Ether.Payload() of a frame shorter than its header) panics: EncodeIP4 writes b[0]",
   "the expire field of icmpEntry is written once and never read",
   "wall-clock time is outside: time.After(d) may fire at any moment (Model.PingMulti adds the deadline)"] := rfl
 
